@@ -127,6 +127,7 @@ def check(model, rep, tier):
   # ---------------------------------------------------------------- RD-FLAG / DRIVER
   rules_df.check_change_flag(rep, 'RD-FLAG', vn, 'out')
   rules_df.check_state_eq(model, rep, 'RD-FLAG', model.cls(RD, '_NodeState'))
+  rules_df.check_state_encapsulated(model, rep, 'RD-TRANSFER', RD, model.cls(RD, '_NodeState'), 'value')
   rules_df.check_driver(model, rep, 'RD-DRIVER')
   ta = model.cls(RD, 'TreeAnnotator')
   vf = ta.methods['visit_FunctionDef']
